@@ -422,6 +422,87 @@ def main():
         return True
     g.attempt("spyOnShape", True, spy_on_shape)
 
+    # ---- singleton / registry / thread-safe attributes ---------------------------
+    def singleton_locked():
+        fn = find_func(find_class(sing, "SingletonDecorator"), "__call__")
+        src = unparse(fn)
+        withs = [n for n in ast.walk(fn) if isinstance(n, ast.With)]
+        tests = src.count("if self.instance is None")
+        if len(withs) == 1 and "self._lock" in unparse(withs[0].items[0]) and tests == 2 \
+                and "self.instance = self.klass(*args, **kwargs)" in unparse(withs[0]):
+            return True
+        if len(withs) == 0 and tests == 1:
+            return False
+        raise ValueError("unrecognised SingletonDecorator.__call__")
+    g.attempt("singletonLocked", True, singleton_locked)
+
+    def registry_locked():
+        res = []
+        for cname in ("OrderedDictWithParams", "SignalSource"):
+            fn = [n for n in find_class(ev, cname).body if isinstance(n, ast.FunctionDef) and n.name == "append"][0]
+            withs = [n for n in ast.walk(fn) if isinstance(n, ast.With) and "_registry_lock" in unparse(n.items[0])]
+            res.append(len(withs) == 1 and "self[string] = len(self) + 1" in unparse(withs[0]) if withs else False)
+        init = find_func(find_class(ev, "Event"), "__init__")
+        w = [n for n in ast.walk(init) if isinstance(n, ast.With) and "_registry_lock" in unparse(n.items[0])]
+        res.append(len(w) == 1 and "signals.append(signal)" in unparse(w[0]) and "signals.items()" in unparse(w[0]) if w else False)
+        if all(res):
+            return True
+        if not any(res):
+            return False
+        raise ValueError("the registry lock is used inconsistently")
+    g.attempt("registryLocked", True, registry_locked)
+
+    TSA = find_class(tsa, "ThreadSafeAttribute")
+
+    def tsa_flag_per_thread():
+        src = unparse(TSA)
+        if "self._thread = local()" in src and "return getattr(self._thread, 'is_atomic', True)" in src \
+                and "self._thread.is_atomic = value" in src:
+            return True
+        if "self._is_atomic = True" in unparse(find_func(TSA, "__init__")) and "_thread" not in src:
+            return False
+        raise ValueError("unrecognised _is_atomic storage")
+    g.attempt("tsaFlagPerThread", True, tsa_flag_per_thread)
+
+    def tsa_per_instance():
+        sset = unparse(find_func(TSA, "__set__"))
+        sget = unparse(find_func(TSA, "__get__"))
+        if "instance.__dict__[self._key] = value" in sset and "self._read(instance)" in sget:
+            return True
+        if "self._value = value" in sset and "return self._value" in sget:
+            return False
+        raise ValueError("unrecognised value storage of ThreadSafeAttribute")
+    g.attempt("tsaPerInstance", True, tsa_per_instance)
+
+    def tsa_protocol():
+        sget = unparse(find_func(TSA, "__get__"))
+        sset = unparse(find_func(TSA, "__set__"))
+        need_get = ["self._lock.acquire(blocking=True)", "self._is_atomic = True", "if self.is_not_atomic(previous_line):",
+                    "self._is_atomic = False", "self._lock.release()"]
+        need_set = ["if self._is_atomic:", "self._lock.acquire(blocking=True)", "self._is_atomic = True", "self._lock.release()"]
+        miss = [x for x in need_get if x not in sget] + [x for x in need_set if x not in sset]
+        if miss:
+            raise ValueError("ThreadSafeAttribute protocol changed: missing %s" % miss[:2])
+        return True
+    g.attempt("tsaProtocol", True, tsa_protocol)
+
+    def regex_literal(fname):
+        fn = find_func(TSA, fname)
+        for n in ast.walk(fn):
+            if isinstance(n, ast.Call) and unparse(n.func) == "re.search" and isinstance(n.args[0], ast.Constant):
+                return n.args[0].value
+        raise ValueError("regex literal not found in " + fname)
+    g.attempt("notAtomicPattern", r"([+-/*@^&|<>%]=)|([/<>*]{2}=)", lambda: regex_literal("is_not_atomic"))
+    g.attempt("lockRequestPattern", r"_, _lock[ ]+=", lambda: regex_literal("request_for_lock"))
+
+    def strip_pattern():
+        fn = find_func(find_func(hsm, "stripped"), "item_without_timestamp")
+        for n in ast.walk(fn):
+            if isinstance(n, ast.Call) and unparse(n.func) == "re.match" and isinstance(n.args[0], ast.Constant):
+                return n.args[0].value
+        raise ValueError("timestamp regex not found")
+    g.attempt("stripPattern", r"[ ]{0,}\[[0-9-:. ]+\] (.+)$", strip_pattern)
+
     # ---- emit -------------------------------------------------------------
     v = g.values
     def b(x):
@@ -451,6 +532,10 @@ def main():
                      v["fab.feOrder"], v["fab.lifoDeliver"], b(v["fab.startKeepsHandles"]), b(v["fab.clearInPlace"]),
                      b(v["fab.subscribeKeepsOthers"])))
     lines.append("def fifoDeliverPlain : Bool := " + b(v["fab.fifoDeliverPlain"]))
+    for k in ("singletonLocked", "registryLocked", "tsaFlagPerThread", "tsaPerInstance", "tsaProtocol"):
+        lines.append("def %s : Bool := %s" % (k, b(v[k])))
+    for k in ("notAtomicPattern", "lockRequestPattern", "stripPattern"):
+        lines.append("def %s : String := %s" % (k, lean_str(v[k])))
     lines.append("def liveTraceById : Bool := " + b(v["liveTraceById"]))
     lines.append("def spyOnShape : Bool := " + b(v["spyOnShape"]))
     lines.append("def psTags : Miros.Conc.PS.Tags := { wrapperAlwaysCalls := %s, subscribedAsksOwnQueue := %s }" % (
